@@ -496,6 +496,15 @@ pub fn run_property(prop: &str, tier: &str, seed: u64, outdir: &str, driver: &st
     let specs: Vec<Spec> = cases.iter().map(|c| c.spec.clone()).collect();
     let results = run_pool(specs, ncpu, Duration::from_millis(def.deadline_ms));
     let t_impl = t0.elapsed().as_secs_f64();
+    if let Ok(sl) = std::env::var("H2T_TRACE_SLICE") {
+        for (i, c) in cases.iter().enumerate() {
+            if c.slice == sl {
+                if let Some(r) = &results[i] {
+                    eprintln!("trace {} route {} deco {} len {} -> {} ({} ms) {}", i, c.spec.route, c.spec.cfg.deco, c.spec.html.len(), r.outcome.kind(), r.ms, r.panic_msg);
+                }
+            }
+        }
+    }
 
     // ---- model ----
     let mut model_in: Vec<(usize, Vec<u64>)> = Vec::new();
@@ -757,9 +766,107 @@ pub fn load_corpus(prop: &str) -> Vec<Case> {
     v
 }
 
-pub fn replay(_file: &str, _driver: &str) -> i32 {
-    eprintln!("replay: not yet implemented");
-    2
+/// `replay <file.json> <driver>`: re-run the case stored in a replay file on the implementation
+/// (worker process, same watchdog) and on the model, and print both outcomes.
+/// Exit 0 when implementation and model agree on the case, 1 when they differ, 2 on a bad file.
+pub fn replay(file: &str, driver: &str) -> i32 {
+    let text = match std::fs::read_to_string(file) {
+        Ok(t) => t,
+        Err(e) => {
+            eprintln!("replay: cannot read {}: {}", file, e);
+            return 2;
+        }
+    };
+    // the "case" object is flat: pick the fields by key
+    fn field<'a>(t: &'a str, key: &str) -> Option<&'a str> {
+        let k = format!("\"{}\":", key);
+        let p = t.find(&k)? + k.len();
+        let rest = t[p..].trim_start();
+        if let Some(r) = rest.strip_prefix('"') {
+            let e = r.find('"')?;
+            Some(&r[..e])
+        } else {
+            let e = rest.find(|c: char| c == ',' || c == '}').unwrap_or(rest.len());
+            Some(rest[..e].trim())
+        }
+    }
+    let cpos = match text.find("\"case\":") {
+        Some(p) => p,
+        None => {
+            eprintln!("replay: no case object in {} (a proof/build failure replay names the obligation instead)", file);
+            println!("{}", text);
+            return 2;
+        }
+    };
+    let t = &text[cpos..];
+    let route = field(t, "route").unwrap_or("0");
+    let width = field(t, "width").unwrap_or("80");
+    let toks = field(t, "cfg_tokens").unwrap_or("");
+    let hexs = field(t, "html_hex").unwrap_or("x");
+    let mr: Option<u64> = field(t, "model_route").and_then(|x| x.parse().ok());
+    let widths = {
+        let k = "\"widths\":[";
+        match t.find(k) {
+            Some(p) => {
+                let r = &t[p + k.len()..];
+                let e = r.find(']').unwrap_or(0);
+                let v: Vec<String> = r[..e].split(',').map(|x| x.trim().trim_matches('"').to_string()).filter(|x| !x.is_empty()).collect();
+                if v.is_empty() { "-".to_string() } else { v.join(",") }
+            }
+            None => "-".to_string(),
+        }
+    };
+    let line = format!("0 {} {} 1 {} {} {}", route, width, widths, toks, hexs);
+    let spec = line_to_spec(&line);
+    println!("document: {:?}", String::from_utf8_lossy(&spec.html));
+    println!("route {} width {} config {:?}", spec.route, spec.width, spec.cfg);
+    let results = run_pool(vec![spec.clone()], 1, Duration::from_millis(120000));
+    let r = match &results[0] {
+        Some(r) => r,
+        None => {
+            println!("implementation: no result");
+            return 1;
+        }
+    };
+    println!("implementation: {}", outcome_summary(&r.outcome).to_string());
+    if !r.panic_msg.is_empty() {
+        println!("panic message: {}", r.panic_msg);
+    }
+    let route_m = match mr {
+        Some(m) => m,
+        None => {
+            println!("model: this case has no model route (implementation-only case)");
+            return 0;
+        }
+    };
+    if !r.regular || r.dom_wire.is_empty() {
+        println!("model: case outside the model's domain (irregular widths or no DOM)");
+        return 0;
+    }
+    let mut w = vec![route_m];
+    spec.cfg.to_wire(&mut w);
+    w.push(spec.width as u64);
+    w.extend_from_slice(&r.dom_wire);
+    let dir = std::env::temp_dir().join(format!("h2t-replay-{}", std::process::id()));
+    let _ = std::fs::create_dir_all(&dir);
+    let out = run_driver(driver, dir.to_str().unwrap(), &[(0usize, w)], 1);
+    let _ = std::fs::remove_dir_all(&dir);
+    match out.get(&0).and_then(|w| outcome_from_wire(w)) {
+        Some((mo, _)) => {
+            println!("model:          {}", outcome_summary(&mo).to_string());
+            if agree(&r.outcome, &mo) {
+                println!("implementation and model agree on this case");
+                0
+            } else {
+                println!("implementation and model DIFFER on this case");
+                1
+            }
+        }
+        None => {
+            println!("model: no answer");
+            1
+        }
+    }
 }
 
 pub fn print_glyphs() {
